@@ -25,7 +25,8 @@ def _const(name, arr, how, nodes, inits, inputs):
         nodes.insert(0, oh.make_node("Constant", [], [name], value=nh.from_array(arr, name + "_v")))
     elif how == "input":  # overridable default: must NOT be treated as a constant
         inits.append(nh.from_array(arr, name))
-        dt = {np.dtype(np.float32): F, np.dtype(np.int64): I64, np.dtype(np.bool_): B}[arr.dtype]
+        dt = {np.dtype(np.float32): F, np.dtype(np.int64): I64, np.dtype(np.bool_): B, np.dtype(np.int32): TP.INT32,
+              np.dtype(np.uint8): TP.UINT8, np.dtype(np.int8): TP.INT8}[arr.dtype]
         inputs.append((name, dt, list(arr.shape)))
     else:
         raise ValueError(how)
@@ -806,6 +807,32 @@ def hosts_conv():
     return out
 
 
+def hosts_shape_attrs():
+    """Shape with start / end attributes over the whole range the specification clamps (below -rank, -rank..rank, above rank), on
+    ranks 1-3, feeding a data op so that a wrong folded shape changes the output (used by C03/C04/C09)"""
+    out = []
+    for xs in [(2, 3, 4), (2, 3), (4,)]:
+        r = len(xs)
+        vals = sorted({-2 * r - 1, -2 * r, -2 * r + 1, -r - 2, -r - 1, -r, -r + 1, -1, 0, 1, r - 1, r, r + 1, 2 * r})
+        for st, en in itertools.product([None] + vals, [None] + vals):
+            if st is not None and en is not None and not (st in (-r - 1, -r - 2, -2 * r + 1, -2 * r) or en in (-r - 1, -r - 2, -2 * r + 1, -2 * r)) and (st + en) % 3:
+                continue  # thin out the combinations that do not involve the clamped region below -rank
+            kw = {}
+            if st is not None:
+                kw["start"] = st
+            if en is not None:
+                kw["end"] = en
+            h = H(f"Shape<start={st}, end={en}>(x={list(xs)})")
+            h.inp("x", F, xs)
+            h.n("Shape", ["x"], "s", **kw)
+            h.n("Cast", ["s"], "sf", to=F)
+            h.n("ReduceSum", ["sf"], "t", keepdims=0)
+            h.n("Mul", ["x", "t"], "y")
+            h.out("y", "s")
+            out.append(h.build())
+    return out
+
+
 def hosts_conv_integer():
     """ConvInteger behind a Pad (constant 0 / equal to the zero point / other), with and without zero points (scalar, per-channel),
     uint8 and int8 data; auto_pad forms for the normalisation rule"""
@@ -839,6 +866,27 @@ def hosts_conv_integer():
             cins.append("wz")
         kw = {} if conv_pads is None else {"pads": conv_pads}
         h.n("ConvInteger", cins, "y", **kw)
+        h.out("y")
+        out.append(h.build())
+    # QLinearConv with an optional int32 bias (zero / non-zero; initializer / Constant node / overridable input), per-tensor and
+    # per-channel weight scales
+    for bias, form, per_channel in itertools.product([[0, 0, 0], [0, 1, 0], None], FORMS, [False, True]):
+        if bias is None and form != "init":
+            continue
+        h = H(f"QLinearConv bias={bias} form={form} per_channel_scale={per_channel}")
+        h.inp("x", U8, (1, 2, 4))
+        h.c("xs", np.array(0.5, dtype=f32))
+        h.c("xz", np.array(3, dtype=np.uint8))
+        h.c("w", rng.integers(0, 5, size=(3, 2, 2)).astype(np.uint8))
+        h.c("ws", np.array([0.25, 0.5, 1.0] if per_channel else 0.25, dtype=f32))
+        h.c("wz", np.array([1, 0, 2] if per_channel else 1, dtype=np.uint8))
+        h.c("ys", np.array(0.75, dtype=f32))
+        h.c("yz", np.array(7, dtype=np.uint8))
+        ins = ["x", "xs", "xz", "w", "ws", "wz", "ys", "yz"]
+        if bias is not None:
+            h.c("b", np.array(bias, dtype=np.int32), form)
+            ins.append("b")
+        h.n("QLinearConv", ins, "y")
         h.out("y")
         out.append(h.build())
     for auto, strides, zp in itertools.product(["SAME_UPPER", "SAME_LOWER", "VALID"], [[1], [2]], [None, 3]):
@@ -956,6 +1004,26 @@ def hosts_control_flow():
             h.n("Add", ["z", "t"], "y")
             h.out("y")
             out.append(h.build())
+    # sibling subgraphs that use the same value names (valid ONNX): constant / dynamic conditions; foldable and input-dependent bodies
+    for c1, c2 in itertools.product(["const_true", "const_false", "input"], repeat=2):
+        h = H(f"two Ifs with same-named intermediates cond1={c1} cond2={c2}")
+        h.inp("x", F, (2,))
+        for nm, kind in (("k1", c1), ("k2", c2)):
+            if kind == "input":
+                h.inp(nm, B, ())
+            else:
+                h.c(nm, np.array(kind == "const_true"))
+
+        def br2(pfx, k):
+            c1_ = nh.from_array(np.array([k, k], dtype=f32), "c1")
+            c2_ = nh.from_array(np.array([1.0, 1.0], dtype=f32), "c2")
+            return _sub(pfx, [N("Add", ["c1", "c2"], ["temp"]), N("Mul", ["x", "temp"], ["t2"]), N("Relu", ["t2"], [pfx + "_o"])],
+                        [(pfx + "_o", F, [2])], [c1_, c2_])
+        h.n("If", ["k1"], "y1", then_branch=br2("t1", 1.0), else_branch=br2("e1", 2.0))
+        h.n("If", ["k2"], "y2", then_branch=br2("t2", 3.0), else_branch=br2("e2", 4.0))
+        h.n("Add", ["y1", "y2"], "y")
+        h.out("y")
+        out.append(h.build())
     # nested If: the inner branch forwards a value of the OUTER-most graph and one of the middle graph
     for inner in ("id_outermost", "id_middle"):
         h = H(f"nested If inner={inner}")
@@ -1003,7 +1071,7 @@ FAMILIES = {
     "dropout_runtime": hosts_dropout_runtime,
     "expand": hosts_expand, "reshape_family": hosts_reshape_family, "clip_relu_minmax": hosts_clip_relu_minmax,
     "hardswish": hosts_hardswish, "matmul_gemm": hosts_matmul_gemm, "conv": hosts_conv, "scatter": hosts_scatter,
-    "control_flow": hosts_control_flow, "conv_integer": hosts_conv_integer,
+    "control_flow": hosts_control_flow, "conv_integer": hosts_conv_integer, "shape_attrs": hosts_shape_attrs,
 }
 
 
@@ -1027,6 +1095,6 @@ def rule_models_for_optimizer(tier):
         out = []
         for fam, hs in by_fam.items():
             r.shuffle(hs)
-            out += hs if fam == "control_flow" else hs[:25]
+            out += hs if fam == "control_flow" else hs[:60] if fam == "shape_attrs" else hs[:25]
         return out
     return hosts
